@@ -585,18 +585,29 @@ func modelName(ctx *core.Ctx, sni, host string) (name, kind string) {
 	return string(core.MustUnHex(ans[1])), ans[2]
 }
 
+// modelLeaf: the leaf the model issues for the handshake on a miss (common name, SAN kind and value —
+// the requested name in its whole length) and the key it is cached under.
+func modelLeaf(ctx *core.Ctx, sni, host string) (cn, kind, sanVal, key string) {
+	ans := strings.Fields(ctx.Model.MustAsk("C07", "leaf", core.HexS(sni), core.HexS(host)))
+	if len(ans) != 6 || ans[0] != "ok" {
+		core.Fatalf("C07 leaf: unexpected answer %v", ans)
+	}
+	return string(core.MustUnHex(ans[1])), ans[2], string(core.MustUnHex(ans[3])), string(core.MustUnHex(ans[4]))
+}
+
 // checkCert evaluates the certificate clauses on one completed handshake. one = replayable case.
 func checkCert(ctx *core.Ctx, one any, t Target, r *hsResult, pool *x509.CertPool) {
 	// model: name and SAN kind the code computes
 	mName, mKind := modelName(ctx, t.SNI, t.Authority())
+	mCN, mKind2, mSAN, _ := modelLeaf(ctx, t.SNI, t.Authority())
 	iKind, iVal := sanOf(r.Leaf)
 	impl := describe(r.Leaf)
-	sameVal := iVal == mName
+	sameVal := iVal == mSAN
 	if iKind == "ip" && mKind == "ip" {
-		sameVal = net.ParseIP(mName) != nil && net.ParseIP(mName).Equal(r.Leaf.IPAddresses[0])
+		sameVal = net.ParseIP(mSAN) != nil && net.ParseIP(mSAN).Equal(r.Leaf.IPAddresses[0])
 	}
-	if r.Leaf.Subject.CommonName != mName || iKind != mKind || !sameVal {
-		ctx.Disagree("certificate name and SAN = Model.C07.certName / san", one, impl, fmt.Sprintf("name=%q san=%s", mName, mKind))
+	if r.Leaf.Subject.CommonName != mCN || iKind != mKind || mKind2 != mKind || !sameVal {
+		ctx.Disagree("certificate name and SAN = Model.C07.certName / san / certForH", one, impl, fmt.Sprintf("name=%q (%d characters) cn=%q san=%s %q", mName, len(mName), mCN, mKind, mSAN))
 	} else {
 		ctx.TraceValidated()
 	}
@@ -669,7 +680,7 @@ func runBatch(ctx *core.Ctx, f *fixture, b *hsBatch) {
 			Phase   int `json:"failing_phase"`
 		}{*b, s.idx, s.phase}
 		t := s.target
-		nontrivial := t.Kind != "dns" || t.SNI != t.Host || strings.ToLower(t.Host) != t.Host || s.phase > 0
+		nontrivial := t.Kind != "dns" || t.SNI != t.Host || strings.ToLower(t.Host) != t.Host || s.phase > 0 || len(t.Requested()) > 63
 		ctx.Case(fmt.Sprintf("hs|%s|%s|%s|%d", b.Env.key(), t.Authority(), t.SNI, s.phase), nontrivial)
 		ctx.Count("hs/kind/" + t.Kind)
 		switch {
@@ -684,6 +695,16 @@ func runBatch(ctx *core.Ctx, f *fixture, b *hsBatch) {
 		}
 		ctx.Count(fmt.Sprintf("hs/cache-size/%d", b.Env.CacheSize))
 		ctx.Count(fmt.Sprintf("hs/phase/%d", s.phase))
+		ctx.Count("hs/requested-name-length/" + lenClass(len(t.Requested())))
+		if t.SNI != "" {
+			ctx.Count("hs/sni-length/" + lenClass(len(t.SNI)))
+		}
+		if t.Kind == "dns" {
+			ctx.Count("hs/connect-host-length/" + lenClass(len(t.Host)))
+			if strings.HasSuffix(t.Host, ".") {
+				ctx.Count("hs/connect-host-trailing-dot")
+			}
+		}
 		if p := ctx.Model.MustAsk("C07", "path", "1", "~", core.HexS(t.Authority())); p != "mitm" {
 			ctx.Disagree("CONNECT without mitm-domains is intercepted", one, "handshake attempted", p)
 		}
@@ -740,6 +761,30 @@ func batchRelations(ctx *core.Ctx, b *hsBatch, all []seen) {
 		if nb < nbLo || nb > nbHi || na < naLo || na > naHi {
 			ctx.Disagree("validity window = [issuance − validity, issuance + validity] in whole seconds (Model.C07.fresh)", b, describe(g.leaf),
 				fmt.Sprintf("notBefore in [%d,%d] notAfter in [%d,%d] (ns), got %d %d", nbLo, nbHi, naLo, naHi, nb, na))
+		} else {
+			ctx.TraceValidated()
+		}
+	}
+	// one cache entry per name (Model.C07.cacheKey is injective): a leaf — told by its serial — is served
+	// for one cache key only, however much of two names agrees
+	keysOf := map[string]map[string]bool{}
+	for _, s := range all {
+		_, _, _, key := modelLeaf(ctx, s.target.SNI, s.target.Authority())
+		k := s.res.Leaf.SerialNumber.String()
+		if keysOf[k] == nil {
+			keysOf[k] = map[string]bool{}
+		}
+		keysOf[k][key] = true
+	}
+	for k, ks := range keysOf {
+		if len(ks) > 1 {
+			var names []string
+			for n := range ks {
+				names = append(names, n)
+			}
+			sort.Strings(names)
+			ctx.Disagree("one leaf is served under one cache key = the requested name (Model.C07.cacheKey, c07_cache_key_injective)", b,
+				fmt.Sprintf("%s served for %d different names %q", describe(bySerial[k].leaf), len(names), names), "one name per leaf")
 		} else {
 			ctx.TraceValidated()
 		}
